@@ -46,7 +46,8 @@ def hexs(s):
 # case generation
 
 OPTS_ALL = ["".join(p) for p in itertools.product("01", repeat=5)]          # hp, rp, cb, bsx, sf
-SHAPE_FLAGS_LE = ["un", "u", "n", "", "unc", "unw", "uns", "unsc", "unsp", "unsq", "unt", "unts", "unm", "unsm", "una", "une", "unsae", "uc"]
+SHAPE_FLAGS_LE = ["un", "u", "n", "", "unc", "unw", "uns", "unsc", "unsp", "unsq", "unt", "unts", "unm", "unsm", "una", "une", "unsae", "uc",
+                  "unsfr", "unsfR", "unsr", "unsR", "unscfR", "unsfrp"]
 SHAPE_FLAGS_SE = ["un", "u", "n", "", "unc", "unw", "uns", "unsc", "unsd", "unm", "unsm", "una", "une", "unh", "unhs", "unhsd", "uc"]
 
 
@@ -86,12 +87,22 @@ def gen_cases(tier, rng):
     for f in names:
         for o in opts_for("Dynamic" in f, full):
             files.append("file path=%s opts=%s" % (os.path.join(sd, f), o))
+        # the same file with every LE partition rewritten to an unordered vertex map (exporter-style), then saved and reloaded
+        for mode in (1, 2):
+            for o in (opts_for("Dynamic" in f, full) if full else ["01111"]):
+                files.append("file path=%s opts=%s perm=%d seed=%d" % (os.path.join(sd, f), o, mode, rng.randint(1, 10 ** 6)))
     # (2) API-built models
     for ver in ("sk", "sse"):
         flagset = SHAPE_FLAGS_LE if ver == "sk" else SHAPE_FLAGS_SE
         for fl in flagset:                                   # one shape, every flag set, option combinations
             for o in (opts_for("h" in fl, True) if full else opts_for("h" in fl, False)[:4]):
                 gens.append("gen ver=%s seed=%d opts=%s nodes= shapes=%s" % (ver, rng.randint(1, 10 ** 6), o, gen_shape(rng, ver, "Shp", 0, fl)))
+        if ver == "sk":                                      # dense single partitions with unordered vertex maps
+            for _ in range(60 if full else 12):
+                nv = rng.choice([3, 4, 5, 6, 8, 12, rng.randint(3, 40)])
+                fl = rng.choice(["unsfR", "unsfR", "unsfr", "unscfR", "unsfR"])
+                gens.append("gen ver=sk seed=%d opts=%s nodes= shapes=Shp:0:%d:%d:%s:%d" % (
+                    rng.randint(1, 10 ** 6), rng.choice(opts_for(False, True)), nv, rng.randint(0, 6), fl, rng.choice([1, 2, 3])))
         for pool in NAME_POOLS:                              # sibling name clashes
             shapes = ";".join(gen_shape(rng, ver, n, 0, rng.choice(["un", "unc", "uns"])) for n in pool)
             gens.append("gen ver=%s seed=%d opts=01111 nodes= shapes=%s" % (ver, rng.randint(1, 10 ** 6), shapes))
@@ -280,6 +291,20 @@ def partition_failures(s):
     if sorted(got) != want:
         bad.append("partition triangles are not the shape's triangles exactly once")
     return bad
+
+
+def unordered_le_partitions(d):
+    """LE partitions of the dump whose vertexMap is not ascending; of those, the dense ones that still start at 0 and end at n-1"""
+    n = dense = 0
+    for s in d.get("shapes", []):
+        if s["type"] in ("NiTriShape", "NiTriStrips") and s.get("mapped"):
+            for p in s.get("parts", []):
+                vm = p["vmap"]
+                if vm and vm != sorted(vm):
+                    n += 1
+                    if vm[0] == 0 and vm[-1] == len(vm) - 1 and sorted(vm) == list(range(len(vm))):
+                        dense += 1
+    return n, dense
 
 
 def evaluate_pipeline(case, d):
@@ -613,6 +638,7 @@ def run(tier, seed, replay=None):
     impl = run_parallel(impl_bin, pipe_cases, 6, 900)
     impl_rn = run_parallel(impl_bin, renames, 200, 300)
     nspec = nknown = ncorr = 0
+    n_unordered_cases = n_unordered_parts = n_dense_unordered = 0
     nontriv = set()
     dist = {"file": len(files), "gen": len(gens), "rename": len(renames)}
     model_cases, model_ctx = [], []
@@ -652,6 +678,13 @@ def run(tier, seed, replay=None):
         nknown += b
         if nt:
             nontriv.add(c)
+            st0 = next((x for x in d["stages"] if x["stage"] == "orig"), None)
+            if st0:
+                u, dn = unordered_le_partitions(st0["d"])
+                if u:
+                    n_unordered_cases += 1
+                    n_unordered_parts += u
+                    n_dense_unordered += dn
         st = {s["stage"]: s for s in d.get("stages", [])}
         if "orig" in st and "conv0" in st and not st["conv0"]["res"]["mismatch"]:
             txt, before = build_tree(st["orig"]["d"])
@@ -717,13 +750,16 @@ def run(tier, seed, replay=None):
     cov.update({
         "evaluations": len(pipe_cases) + len(renames),
         "distinct_nontrivial": len(nontriv),
-        "rule": "cases = every sample file x option combinations (headParts only for the Dynamic samples) + API-built LE/SE models (every flag set: uvs, normals, colours, white colours, skin, model-space shader, strips, LE partitions without weights / without bones, SE NiSkinData without weights, alpha, extra data, dynamic) + sibling name-clash models incl. [A_1,A,A] at depth 0/1/2 + random multi-shape models, each converted, saved, reloaded, converted back, saved, reloaded; + RenameDuplicateShapes probes (all child lists over 6 names up to length 3/4, random up to 8 children on up to 3 nodes). A pipeline case is non-trivial when the file is LE or SE and the conversion ran (no versionMismatch); every rename probe counts; distinct = distinct case lines",
+        "rule": "cases = every sample file x option combinations (headParts only for the Dynamic samples) + API-built LE/SE models (every flag set: uvs, normals, colours, white colours, skin, model-space shader, strips, LE partitions without weights / without bones, SE NiSkinData without weights, alpha, extra data, dynamic, LE partitions rewritten consistently to an unordered vertexMap incl. dense maps that still start at 0 and end at n-1) + every sample with its LE partitions rewritten that way and saved/reloaded first + sibling name-clash models incl. [A_1,A,A] at depth 0/1/2 + random multi-shape models, each converted, saved, reloaded, converted back, saved, reloaded; + RenameDuplicateShapes probes (all child lists over 6 names up to length 3/4, random up to 8 children on up to 3 nodes). A pipeline case is non-trivial when the file is LE or SE and the conversion ran (no versionMismatch); every rename probe counts; distinct = distinct case lines",
         "samples": [c[:300] for c in (files[:1] + gens[:2] + renames[:1])],
         "input_distribution": dist,
         "traces_validated_against_impl": len(model_cases),
         "correspondence_mismatches": ncorr,
         "spec_failures_on_impl": nspec,
         "known_finding_hits": nknown,
+        "cases_with_unordered_le_vertex_maps": n_unordered_cases,
+        "unordered_le_partitions": n_unordered_parts,
+        "unordered_dense_partitions_first0_lastn": n_dense_unordered,
         "unproved": ["NifFile::OptimizeFor as a whole (skin partition conversion, weight transfer, shader flag edits, block deletion / sorting, save + reload): explored on the implementation, not modelled"],
         "trusted_base": vlib.BASE_TRUSTED + [
             "level PARTIAL: the theorems cover renaming and list bookkeeping; the conversion as a whole is explored, not proved",
